@@ -80,9 +80,158 @@ theorem credits_only_payees_all_histories (g : Genesis) (h0 : 0 ≤ g.params.pro
   subst e
   exact step_swap_credits h
 
-/-- The relation composes along a history as long as the set is fixed (used inside a step; stated
-here because it is what makes `CreditsOnly` usable for several operations in a row). -/
-theorem creditsOnly_trans {a b c : State} {R : Addr → Prop} (h1 : CreditsOnly a b R) (h2 : CreditsOnly b c R) :
-    CreditsOnly a c R := h1.trans h2
+/-! ### non-vacuity: a state with a plan, a per-hour node subscription and its payout -/
+
+def exParams : Params := { (default : Params) with provDeposit := ⟨"udvpn", 0⟩, nodeDeposit := ⟨"udvpn", 0⟩ }
+
+/-- Account `05` holds a 2-hour subscription on node `07` (20udvpn in escrow, first hourly payout due);
+provider `04` owns a plan. -/
+def exState : State :=
+  { time := 100, height := 5,
+    bank := [((depositAddr, "udvpn"), 20), (([5], "udvpn"), 3)],
+    supply := [("udvpn", 23)],
+    deposits := [([5], [⟨"udvpn", 20⟩])],
+    planInactive := [(1, { id := 1, prov := [4], dur := 10, gb := 1, prices := [], status := .StatusInactive, statusAt := 0 })],
+    subs := [(1, { id := 1, addr := [5], inactiveAt := 7200000000100, status := .StatusActive, statusAt := 0,
+                   kind := .node [7] 0 2 ⟨"udvpn", 20⟩ })],
+    subQ := [((7200000000100, 1), ())],
+    subForAcc := [(([5], 1), ())], subForNode := [(([7], 1), ())],
+    payouts := [(1, { id := 1, addr := [5], node := [7], hours := 2, price := ⟨"udvpn", 10⟩, nextAt := 50 })],
+    payQ := [((50, 1), ())], payForAcc := [(([5], 1), ())], payForNode := [(([7], 1), ())],
+    payForAccNode := [(([5], [7], 1), ())],
+    subCount := some 1, planCount := some 1, sessCount := some 0,
+    params := exParams }
+
+/-- The hypotheses of `step_credits_only_payees` hold in `exState` … -/
+example : DepositParamsOK exState ∧ PayoutOwned exState := by
+  refine ⟨⟨by decide, by decide⟩, ?_⟩
+  intro i p hp
+  refine ⟨1, _, rfl, ?_⟩
+  simp only [exState, Tbl.get] at hp
+  split at hp
+  · rw [← Option.some.inj hp]
+  · contradiction
+
+/-- … the begin-of-block step from it does move money (the hourly payout: 10udvpn from the escrow to
+node `07`) … -/
+example : (step exState (.begin 200)).map
+    (fun s' => (balance s' [7] "udvpn", balance s' [5] "udvpn", balance s' depositAddr "udvpn")) = some (10, 3, 10) := by
+  decide +kernel
+
+/-- … so the theorem applies to a step that credits somebody … -/
+example : ∀ s', step exState (.begin 200) = some s' → CreditsOnly exState s' (Payee exState) := by
+  intro s' h
+  refine step_credits_only_payees h rfl ⟨by decide, by decide⟩ ?_
+  intro i p hp
+  refine ⟨1, _, rfl, ?_⟩
+  simp only [exState, Tbl.get] at hp
+  split at hp
+  · rw [← Option.some.inj hp]
+  · contradiction
+
+/-- … and `Payee` is a proper set: node `07`, owner `05` and provider `04` are payees, account `09` is not. -/
+example : Payee exState [7] ∧ Payee exState [5] ∧ Payee exState [4] :=
+  ⟨Or.inr (Or.inr (Or.inr (Or.inr (Or.inr (Or.inl ⟨1, _, rfl, rfl⟩))))),
+   Or.inr (Or.inr (Or.inr (Or.inr (Or.inl ⟨1, _, rfl, rfl⟩)))),
+   Or.inr (Or.inr (Or.inr (Or.inl ⟨1, _, Or.inr rfl, rfl⟩)))⟩
+
+example : ¬ Payee exState [9] := by
+  rintro (h | h | h | ⟨i, p, hp, e⟩ | ⟨i, x, hx, e⟩ | ⟨i, x, hx, e⟩ | ⟨i, p, hp, e⟩ | ⟨i, x, hx, e⟩)
+  · exact absurd h (by decide)
+  · exact absurd h (by decide)
+  · exact absurd h (by decide)
+  · simp only [exState, Tbl.get] at hp
+    rcases hp with hp | hp
+    · contradiction
+    · split at hp
+      · rw [← Option.some.inj hp] at e; exact absurd e (by decide)
+      · contradiction
+  · simp only [exState, Tbl.get] at hx
+    split at hx
+    · rw [← Option.some.inj hx] at e; exact absurd e (by decide)
+    · contradiction
+  · simp only [exState, Tbl.get] at hx
+    split at hx
+    · rw [← Option.some.inj hx] at e; exact absurd e (by decide)
+    · contradiction
+  · simp only [exState, Tbl.get] at hp
+    split at hp
+    · rw [← Option.some.inj hp] at e; exact absurd e (by decide)
+    · contradiction
+  · simp only [exState, Tbl.get] at hx
+    contradiction
+
+/-! ### both hypotheses are needed -/
+
+/-- A state whose provider deposit parameter is negative (possible only in a genesis). -/
+def negState : State :=
+  { time := 100, bank := [(([1], "udvpn"), 10)], supply := [("udvpn", 10)],
+    params := { (default : Params) with provDeposit := ⟨"udvpn", -5⟩ } }
+
+/-- Without `DepositParamsOK` the statement is false: `MsgRegister` of a provider "deposits" −5udvpn,
+which credits the signer `01` — not a payee of `negState` (all its tables are empty). -/
+example : ∃ s', step negState (.tx (.provRegister ⟨.acc, [1], false⟩ [110] [] [] [] true)) = some s' ∧
+    ¬ CreditsOnly negState s' (Payee negState) := by
+  refine ⟨_, rfl, ?_⟩
+  intro h
+  have hlt : balance negState [1] "udvpn" <
+      balance (deliver negState (.provRegister ⟨.acc, [1], false⟩ [110] [] [] [] true)).1 [1] "udvpn" := by decide +kernel
+  rcases h [1] "udvpn" hlt with (h | h | h | ⟨i, p, hp, e⟩ | ⟨i, x, hx, e⟩ | ⟨i, x, hx, e⟩ | ⟨i, p, hp, e⟩ | ⟨i, x, hx, e⟩)
+  · exact absurd h (by decide)
+  · exact absurd h (by decide)
+  · exact absurd h (by decide)
+  · simp only [negState, Tbl.get] at hp
+    rcases hp with hp | hp <;> contradiction
+  · simp only [negState, Tbl.get] at hx; contradiction
+  · simp only [negState, Tbl.get] at hx; contradiction
+  · simp only [negState, Tbl.get] at hp; contradiction
+  · simp only [negState, Tbl.get] at hx; contradiction
+
+/-- A state violating `PayoutOwned` (unreachable: it violates `SubIdx.payoutRec`): the payout of
+`05`'s expiring per-hour subscription draws on the escrow record of `06`. -/
+def strayState : State :=
+  { time := 100, height := 5,
+    bank := [((depositAddr, "udvpn"), 20)],
+    supply := [("udvpn", 20)],
+    deposits := [([6], [⟨"udvpn", 20⟩])],
+    subs := [(1, { id := 1, addr := [5], inactiveAt := 50, status := .StatusInactivePending, statusAt := 0,
+                   kind := .node [7] 0 2 ⟨"udvpn", 20⟩ })],
+    subQ := [((50, 1), ())],
+    subForAcc := [(([5], 1), ())], subForNode := [(([7], 1), ())],
+    payouts := [(1, { id := 1, addr := [6], node := [7], hours := 2, price := ⟨"udvpn", 10⟩, nextAt := 0 })],
+    payForAcc := [(([6], 1), ())], payForNode := [(([7], 1), ())],
+    subCount := some 1, planCount := some 0, sessCount := some 0,
+    params := exParams }
+
+/-- Without `PayoutOwned` the statement is false: the end-of-block refund of the removed per-hour
+subscription goes to the payout's account `06`, which is neither the subscriber nor any other payee. -/
+example : ∃ s', step strayState .endB = some s' ∧ ¬ CreditsOnly strayState s' (Payee strayState) := by
+  have hs : (step strayState .endB).isSome = true := by decide +kernel
+  obtain ⟨s', hs'⟩ := Option.isSome_iff_exists.mp hs
+  refine ⟨s', hs', ?_⟩
+  intro h
+  have hlt : (step strayState .endB).all (fun t => decide (balance strayState [6] "udvpn" < balance t [6] "udvpn")) = true := by
+    decide +kernel
+  rw [hs'] at hlt
+  have hlt' : balance strayState [6] "udvpn" < balance s' [6] "udvpn" := by simpa using hlt
+  rcases h [6] "udvpn" hlt' with (h | h | h | ⟨i, p, hp, e⟩ | ⟨i, x, hx, e⟩ | ⟨i, x, hx, e⟩ | ⟨i, p, hp, e⟩ | ⟨i, x, hx, e⟩)
+  · exact absurd h (by decide)
+  · exact absurd h (by decide)
+  · exact absurd h (by decide)
+  · simp only [strayState, Tbl.get] at hp
+    rcases hp with hp | hp <;> contradiction
+  · simp only [strayState, Tbl.get] at hx
+    split at hx
+    · rw [← Option.some.inj hx] at e; exact absurd e (by decide)
+    · contradiction
+  · simp only [strayState, Tbl.get] at hx
+    split at hx
+    · rw [← Option.some.inj hx] at e; exact absurd e (by decide)
+    · contradiction
+  · simp only [strayState, Tbl.get] at hp
+    split at hp
+    · rw [← Option.some.inj hp] at e; exact absurd e (by decide)
+    · contradiction
+  · simp only [strayState, Tbl.get] at hx; contradiction
 
 end Hub.Props.C01Recipients
